@@ -107,7 +107,9 @@ def read_display_arms(dump_text: str, error_type: str):
         if re.fullmatch(r'[A-Za-z_][A-Za-z0-9_]*', bound_arg):
             # `let bound: T = <expr>;` earlier in the arm: the printed value is <expr> evaluated as a T
             lm = re.search(r'\blet\s+' + re.escape(bound_arg) + r'\s*:\s*([A-Za-z0-9_:]+)\s*=\s*', s[a0:q])
-            if lm:
+            # the binding must be the ONLY one of that name in the arm (no shadowing / reassignment in between)
+            rebinds = len(re.findall(r'\blet\s+(?:mut\s+)?' + re.escape(bound_arg) + r'\b', s[a0:q])) + len(re.findall(r'\b' + re.escape(bound_arg) + r'\s*[-+*/]?=[^=]', s[a0:q]))
+            if lm and rebinds == 1:   # exactly the one typed `let`
                 e0 = a0 + lm.end()
                 e1 = next((j for j in range(e0, q) if s[j] == ';' and sc.mask[j] and not any(o < j < c for o, c in sc.parens.items() if o >= e0)), None)
                 if e1 is not None:
